@@ -853,6 +853,23 @@ func c18Spell(dir, how string) (string, error) {
 			return "", err
 		}
 		return dir + "/data.json.d/../data.json", nil
+	case "symabs", "symrel", "symchain":
+		// the configured path is a symbolic link (absolute target, relative target, a chain of two); nothing exists behind it yet.
+		// Storing replaces whatever directory entry carries the name (os.Rename does not follow links).
+		target := "vol-data.json"
+		if how == "symabs" {
+			target = dir + "/vol-data.json"
+		}
+		if how == "symchain" {
+			if err := os.Symlink(target, dir+"/hop.json"); err != nil {
+				return "", err
+			}
+			target = "hop.json"
+		}
+		if err := os.Symlink(target, dir+"/data.json"); err != nil {
+			return "", err
+		}
+		return dir + "/data.json", nil
 	case "rel", "dotrel":
 		wd, err := os.Getwd()
 		if err != nil {
@@ -876,17 +893,31 @@ func c18Spell(dir, how string) (string, error) {
 //   =>  per step, joined by `/`:   g,<v<c>|err|x>,<siblings intact>     s,<c>,<len>,<ok|err|died>,<file>,<left>,<siblings intact>
 func c18OpLife(a []string) string {
 	kind := a[0]
-	dir, err := os.MkdirTemp("", "verif-c18l-")
+	root, err := os.MkdirTemp("", "verif-c18l-")
 	if err != nil {
 		return "notmp"
 	}
-	defer os.RemoveAll(dir)
+	defer os.RemoveAll(root)
+	// the relayer's working directory is NOT the directory of its key share: an empty scratch directory, which must stay empty
+	dir, cwd := filepath.Join(root, "store"), filepath.Join(root, "cwd")
+	if os.Mkdir(dir, 0o755) != nil || os.Mkdir(cwd, 0o755) != nil {
+		return "notmp"
+	}
+	oldWd, err := os.Getwd()
+	if err != nil || os.Chdir(cwd) != nil {
+		return "nochdir"
+	}
+	defer func() { _ = os.Chdir(oldWd) }()
 	path, err := c18Spell(dir, a[1])
 	if err != nil {
 		return "nospell"
 	}
 	clean := filepath.Join(dir, "data.json")
 	sibs := map[string][]byte{}
+	links := map[string]string{}
+	if a[1] == "symchain" {
+		links["hop.json"] = "vol-data.json"
+	}
 	for _, it := range items(a[2], ",") {
 		name := c18SiblingNames[int(u64(it))%len(c18SiblingNames)]
 		if name == "data.json.d" {
@@ -916,16 +947,26 @@ func c18OpLife(a []string) string {
 				n++
 			}
 		}
+		for name, tgt := range links {
+			if t, err := os.Readlink(filepath.Join(dir, name)); err == nil && t == tgt {
+				n++
+			}
+		}
 		return n
 	}
-	left := func() int {
+	left := func() int { // strays: in the store's directory, and anything at all in the working directory
 		n := 0
 		if es, err := os.ReadDir(dir); err == nil {
 			for _, e := range es {
-				if _, ok := sibs[e.Name()]; !ok && e.Name() != "data.json" {
+				_, isSib := sibs[e.Name()]
+				_, isLink := links[e.Name()]
+				if !isSib && !isLink && e.Name() != "data.json" {
 					n++
 				}
 			}
+		}
+		if es, err := os.ReadDir(cwd); err == nil {
+			n += len(es)
 		}
 		return n
 	}
@@ -1097,7 +1138,7 @@ func genC18(g *G) {
 				ks = append(ks, k)
 			}
 		} else {
-			for i := 0; i < g.Count(25, 400); i++ {
+			for i := 0; i < g.Count(12, 400); i++ {
 				ks = append(ks, g.Intn(n+1))
 			}
 		}
@@ -1284,14 +1325,14 @@ func genC18(g *G) {
 				others = append(others, i+1)
 			}
 		}
-		for len(closers) > g.Count(45, 400) { // (huge values: a random subset)
+		for len(closers) > g.Count(30, 400) { // (huge values: a random subset)
 			j := g.Intn(len(closers))
 			closers = append(closers[:j], closers[j+1:]...)
 		}
 		for _, k := range closers {
 			g.Emit("store", kind, "die", itoa(k), old, nw)
 		}
-		for i := 0; i < g.Count(12, 300) && len(others) > 0; i++ {
+		for i := 0; i < g.Count(8, 300) && len(others) > 0; i++ {
 			g.Emit("store", kind, "die", itoa(others[g.Intn(len(others))]), old, nw)
 		}
 		// … and inside sequences: die at a closing brace, restart, read, store again, read
@@ -1303,7 +1344,7 @@ func genC18(g *G) {
 	// 10. the path as a configuration may spell it (./, //, /./, /x/../, relative) and other files next to the store's file
 	//     whose names start like, or extend, the store's file name: every access cycle must leave the share readable and the
 	//     neighbours alone
-	spellings := []string{"clean", "dot", "dslash", "dotdot", "rel", "dotrel"}
+	spellings := []string{"clean", "dot", "dslash", "dotdot", "rel", "dotrel", "symabs", "symrel", "symchain"}
 	for _, kind := range kinds {
 		for i := 0; i < g.Count(18, 400); i++ {
 			sp := spellings[i%len(spellings)]
